@@ -1,5 +1,6 @@
 # self-validation battery (see runner.py): mutants must be reported under the named rule, neutral rewrites must stay silent
 MUTANTS = [
+    {'name': 'revert: flat and minor key signatures', 'revert': 'keep flat and minor key signatures', 'expect': '|CASE-fold|'},
     {'name': 'revert: soft pedal lines with MatchSoftPedal', 'revert': 'soft pedal lines with MatchSoftPedal', 'expect': 'F6-to_v1'},
     {'name': 'revert: returns a MatchTempoIndication', 'revert': 'returns a MatchTempoIndication', 'expect': 'F4f'},
     {'name': 'stime template swaps fields', 'file': 'partitura/io/matchfile_base.py', 'old': '    out_pattern = "stime({Measure}:{Beat},{Offset},{OnsetInBeats},{AnnotationType})"', 'new': '    out_pattern = "stime({Beat}:{Measure},{Offset},{OnsetInBeats},{AnnotationType})"', 'expect': 'F5b'},
